@@ -4,7 +4,8 @@ Proof: lean/EdbVerif/Props/C12.lean over Model/Types.lean + Model/TypesQL.lean a
 tables of Gen/Types.lean, which are REGENERATED from the real std schema first.
 
 Tie (all on the real code, through the front-end bridge):
-  L1  scalar level — for every pair of universe scalars the real
+  L1  scalar level — for every pair of universe scalars AND of the user scalars of the harness schema
+      (derived, sibling, second-level derived, constrained str, enum) the real
       `casts.get_implicit_cast_distance`, `implicitly_castable_to`,
       `find_common_implicitly_castable_type` vs the model (`dist`, `common`, `cset`);
       random tuple / array types built with the real `Tuple.create` / `Array.create`.
@@ -29,13 +30,20 @@ PROPS = 'EdbVerif/Props/C12.lean'
 # `decide +kernel` over Gen/Types.lean
 GEN_TABLE_THEOREMS = 6
 REQUIRED = [
-    'EdbVerif.C12.common_lub', 'EdbVerif.C12.common_set_order_irrelevant', 'EdbVerif.C12.castDist_shortest_path',
+    'EdbVerif.C12.common_lub', 'EdbVerif.C12.common_lub_plain', 'EdbVerif.C12.common_value_sound',
+    'EdbVerif.C12.common_same_base', 'EdbVerif.C12.common_set_order_irrelevant',
+    'EdbVerif.C12.castDist_shortest_path',
     'EdbVerif.C12.resolve_det',
     'EdbVerif.C12.numeric_table', 'EdbVerif.C12.arith_overloads_closed', 'EdbVerif.C12.C12_sound_partial',
     'EdbVerif.C12.C12_shape',
 ]
 
 SDL = '''
+scalar type myint extending int64 { constraint max_value(100); }
+scalar type yourint extending int64 { constraint min_value(-100); }
+scalar type posint extending myint { constraint min_value(0); }
+scalar type tinystr extending str { constraint max_len_value(3); }
+scalar type Color extending enum<Red, Green, Blue>;
 type Item {
   required name: str;
   required n16: int16;
@@ -49,6 +57,11 @@ type Item {
   multi tags: str;
   multi link others: Item;
   link owner: Person;
+  mi: myint;
+  yi: yourint;
+  pi: posint;
+  ts: tinystr;
+  col: Color;
 }
 type Person {
   required name: str;
@@ -62,10 +75,22 @@ PTRS = {
     0: [('name', ('S', 'str')), ('n16', ('S', 'int16')), ('n32', ('S', 'int32')), ('n64', ('S', 'int64')),
         ('f32', ('S', 'float32')), ('f64', ('S', 'float64')), ('dec', ('S', 'decimal')),
         ('big', ('S', 'bigint')), ('flag', ('S', 'bool')), ('tags', ('S', 'str')),
-        ('others', ('O', 0)), ('owner', ('O', 1))],
+        ('others', ('O', 0)), ('owner', ('O', 1)),
+        ('mi', ('U', 'myint')), ('yi', ('U', 'yourint')), ('pi', ('U', 'posint')), ('ts', ('U', 'tinystr')),
+        ('col', ('U', 'Color'))],
     1: [('name', ('S', 'str')), ('age', ('S', 'int32')), ('items', ('O', 0))],
 }
 NUMERIC = ['int16', 'int32', 'int64', 'float32', 'float64', 'bigint', 'decimal']
+# user scalars of SDL: name -> {'id', 'chain', 'base' (Lean ident of the concrete std base | None), 'enum'};
+# filled from the REAL harness schema by gen.types.user_scalars.  ('U', name) is a user scalar type.
+USER: dict = {}
+# what a value of a user scalar must satisfy beyond inhabiting its base (the schema's constraints)
+CONSTRAINT = {
+    'myint': lambda v: v <= 100,
+    'yourint': lambda v: v >= -100,
+    'posint': lambda v: 0 <= v <= 100,
+    'tinystr': lambda v: len(v) <= 3,
+}
 
 
 # ------------------------------------------------------------------ type <-> protocol
@@ -73,6 +98,11 @@ def ty_enc(t) -> str:
     k = t[0]
     if k == 'S':
         return f'S {t[1]}'
+    if k == 'U':
+        u = USER[t[1]]
+        if u['enum'] is not None:
+            return f"E {u['id']}"
+        return f"D {len(u['chain'])} " + ' '.join(map(str, u['chain'])) + f" {u['base']}"
     if k == 'O':
         return f'O {t[1]}'
     if k == 'A':
@@ -93,6 +123,8 @@ def ty_ql(t) -> str:
     k = t[0]
     if k == 'S':
         return scalar_ql(t[1])
+    if k == 'U':
+        return 'default::' + t[1]
     if k == 'O':
         return 'default::' + OBJ[t[1]]
     if k == 'A':
@@ -127,6 +159,8 @@ def real_ty(t, schema, gen):
         n = str(t.get_name(schema))
         if n in gen['universe']:
             return ('S', gen['ident'][n])
+        if n.startswith('default::') and n[9:] in USER:
+            return ('U', n[9:])
         raise Unsupported(n)
     if isinstance(t, s_objtypes.ObjectType):
         _, m = t.material_type(schema)
@@ -150,9 +184,11 @@ def desc_ty(d, gen):
         return ('T', [desc_ty(x, gen)[0] for x in d.fields]), None
     if isinstance(d, sertypes.ArrayDesc):
         return ('A', desc_ty(d.subtype, gen)[0]), None
-    if isinstance(d, sertypes.BaseScalarDesc):
+    if isinstance(d, (sertypes.BaseScalarDesc, sertypes.EnumDesc)):
         if d.name in gen['universe']:
             return ('S', gen['ident'][d.name]), None
+        if d.name and d.name.startswith('default::') and d.name[9:] in USER:
+            return ('U', d.name[9:]), None
         raise Unsupported(d.name)
     raise Unsupported(type(d).__name__)
 
@@ -346,6 +382,10 @@ class Gen:
             for p, (pn, pt) in enumerate(PTRS[0]):
                 if pt == ('S', t):
                     opts.append((('pa', ('ob', 0), p, pn), pt))
+        if t == 'int64' and r.random() < 0.35:
+            # properties of user scalars derived from int64 (approximate type: the base)
+            for p, pn in ((12, 'mi'), (13, 'yi'), (14, 'pi')):
+                opts.append((('pa', ('ob', 0), p, pn), ('S', 'int64')))
         if opts and r.random() < 0.6:
             return r.choice(opts)
         n = r.choice([0, 1, 2, 3, 7, 10, -1, -4])
@@ -414,6 +454,8 @@ class Gen:
                     opts.append((('pa', ('va', i), 0, 'name'), ('S', 'str')))
             opts.append((('pa', ('ob', r.choice([0, 1])), 0, 'name'), ('S', 'str')))
             opts.append((('pa', ('ob', 0), 9, 'tags'), ('S', 'str')))
+            if r.random() < 0.25:
+                opts.append((('pa', ('ob', 0), 15, 'ts'), ('S', 'str')))
             return r.choice(opts)
         c = r.random()
         if c < 0.4:
@@ -529,8 +571,10 @@ class Gen:
             return ('fi', a, cnd), ta
         if c < 0.8:
             b, tb = self.obj(d - 1, env)
-            return ('ca', r.choice(['op_union', 'op_except', 'op_intersect', 'op_coalesce']), [a, b]), \
-                (ta if ta == tb else None)
+            if ta != tb:
+                # two different object types give a union type / common ancestor: outside the flat calculus
+                return a, ta
+            return ('ca', r.choice(['op_union', 'op_except', 'op_intersect', 'op_coalesce']), [a, b]), ta
         if c < 0.9:
             return ('ca', 'op_distinct', [a]), ta
         b, tb = self.obj(d - 1, [ta] + env)
@@ -612,6 +656,67 @@ def directed_queries():
                 bodies.append(('ca', op, [a, b]))
             for body in bodies:
                 out.append(('fo', ('ob', 0), body))
+    return out
+
+
+def user_scalar_queries():
+    """Every common-type context x ordered pairs of {derived, sibling, base, second-level derived}
+    (and tinystr / str): the common type of two different scalars with the same concrete base is the
+    base, never one of the derived scalars.  Operands are properties (toy-evaluable; their stored values
+    satisfy the constraints of their own type only) and literals that violate every constraint."""
+    X = ('va', 0)
+    ints = [('pa', X, 12, 'mi'), ('pa', X, 13, 'yi'), ('pa', X, 14, 'pi'), ('pa', X, 3, 'n64'), ('li', 1000),
+            ('li', -500)]
+    strs = [('pa', X, 15, 'ts'), ('pa', X, 0, 'name'), ('ls', 'long')]
+    flag = ('pa', X, 8, 'flag')
+    out = []
+
+    def contexts(a, b, flag=flag):
+        return [
+            ('ar', [a, b]), ('set', [a, b]), ('ca', 'op_union', [a, b]), ('ca', 'op_coalesce', [a, b]),
+            ('ca', 'op_if', [a, flag, b]),
+            ('ca', 'op_union', [('tu', [a, ('ls', 'a')]), ('tu', [b, ('ls', 'b')])]),
+            ('ca', 'fn_array_agg', [('set', [a, b])]),
+            ('tu', [('set', [a, b]), ('li', 0)]), ('ar', [('set', [a, b])]),
+            ('ca', 'op_union', [('ar', [a]), ('ar', [b])]),
+            ('ca', 'fn_min', [('set', [a, b])]), ('ca', 'op_distinct', [('set', [a, b])]),
+            ('ar', [a, b, a]), ('set', [a, b, a]),
+        ]
+    for pool in (ints, strs):
+        for a in pool:
+            for b in pool:
+                if a[0] in ('li', 'ls') and b[0] in ('li', 'ls'):
+                    continue
+                for body in contexts(a, b):
+                    out.append(('fo', ('ob', 0), body))
+    # type level only (explicit casts are outside toy_eval_model): the same contexts on cast operands,
+    # arithmetic / comparison / functions on user scalars, casts between user scalars, enums
+    MI, YI, PI, TS = ('U', 'myint'), ('U', 'yourint'), ('U', 'posint'), ('U', 'tinystr')
+    c = lambda t, n: ('cs', t, ('li', n))
+    cast_ops = [c(MI, 1), c(YI, 2), c(PI, 3), ('li', 4), ('em', MI), ('em', PI)]
+    for a in cast_ops:
+        for b in cast_ops:
+            for body in contexts(a, b, ('lb', True))[:7]:
+                out.append(body)
+            for op in ('op_plus', 'op_div', 'op_eq', 'op_lt', 'op_in'):
+                out.append(('ca', op, [a, b]))
+    for a in cast_ops[:3]:
+        for f in ('fn_sum', 'fn_min', 'fn_max', 'fn_count', 'fn_math_abs', 'fn_array_agg', 'op_distinct',
+                  'op_exists', 'op_minus', 'fn_enumerate'):
+            out.append(('ca', f, [a]))
+        for t in (MI, YI, PI, ('S', 'int64'), ('S', 'float64'), ('S', 'str'), ('S', 'int16')):
+            out.append(('cs', t, a))
+        out.append(('ca', 'op_plus', [a, ('lf', 5, 1)]))
+        out.append(('set', [a, ('lf', 5, 1)]))
+    out.append(('cs', MI, ('lf', 5, 1)))
+    out.append(('cs', TS, ('ls', 'ab')))
+    out.append(('ca', 'op_concat', [('cs', TS, ('ls', 'ab')), ('ls', 'cd')]))
+    out.append(('ca', 'op_concat', [('cs', TS, ('ls', 'ab')), ('cs', TS, ('ls', 'c'))]))
+    out.append(('ca', 'fn_len', [('cs', TS, ('ls', 'ab'))]))
+    col = ('pa', ('ob', 0), 16, 'col')
+    out += [col, ('set', [col, col]), ('ar', [col, col]), ('ca', 'op_eq', [col, col]),
+            ('ca', 'op_union', [col, ('ls', 'Red')]), ('ca', 'fn_min', [col]), ('ca', 'fn_count', [col]),
+            ('ca', 'op_coalesce', [col, col]), ('ca', 'fn_array_agg', [col])]
     return out
 
 
@@ -717,11 +822,12 @@ def toy_db(model):
     data = [
         {'id': bsid(1), '__type__': 'Item', 'name': 'a', 'n16': 1, 'n32': 2, 'n64': 3, 'f32': 1.5,
          'f64': 2.25, 'dec': D('1.10'), 'big': 10 ** 20, 'flag': True, 'tags': ['x', 'y'],
-         'others': [L(2), L(3)], 'owner': L(11)},
+         'others': [L(2), L(3)], 'owner': L(11), 'mi': 5, 'yi': 500, 'pi': 3, 'ts': 'ab', 'col': 'Red'},
         {'id': bsid(2), '__type__': 'Item', 'name': 'b', 'n16': -2, 'n64': 0, 'f64': 0.5,
-         'dec': D('7'), 'flag': False, 'tags': [], 'others': [L(1)], 'owner': L(11)},
+         'dec': D('7'), 'flag': False, 'tags': [], 'others': [L(1)], 'owner': L(11),
+         'mi': 50, 'yi': -7, 'ts': 'xyz', 'col': 'Blue'},
         {'id': bsid(3), '__type__': 'Item', 'name': 'c', 'n16': 7, 'n32': 5, 'n64': 9, 'f32': 0.25,
-         'big': 3, 'tags': ['z'], 'others': []},
+         'big': 3, 'tags': ['z'], 'others': [], 'yi': 101, 'pi': 100},
         {'id': bsid(11), '__type__': 'Person', 'name': 'p', 'age': 30, 'items': [L(1), L(2)]},
         {'id': bsid(12), '__type__': 'Person', 'name': 'q', 'items': []},
     ]
@@ -735,9 +841,10 @@ def db_line() -> str:
         return f'nu {s} {f[0]} {f[1] - 1}'
     items = {
         1: dict(name='a', n16=1, n32=2, n64=3, f32=1.5, f64=2.25, dec='1.10', big=10 ** 20, flag=True,
-                tags=['x', 'y'], others=[2, 3], owner=[11]),
-        2: dict(name='b', n16=-2, n64=0, f64=0.5, dec='7', flag=False, tags=[], others=[1], owner=[11]),
-        3: dict(name='c', n16=7, n32=5, n64=9, f32=0.25, big=3, tags=['z'], others=[]),
+                tags=['x', 'y'], others=[2, 3], owner=[11], mi=5, yi=500, pi=3, ts='ab', col='Red'),
+        2: dict(name='b', n16=-2, n64=0, f64=0.5, dec='7', flag=False, tags=[], others=[1], owner=[11],
+                mi=50, yi=-7, ts='xyz', col='Blue'),
+        3: dict(name='c', n16=7, n32=5, n64=9, f32=0.25, big=3, tags=['z'], others=[], yi=101, pi=100),
     }
     persons = {11: dict(name='p', age=30, items=[1, 2]), 12: dict(name='q', items=[])}
     out = []
@@ -749,6 +856,13 @@ def db_line() -> str:
                 vs = [] if v is None else (v if isinstance(v, list) else [v])
                 if pt[0] == 'O':
                     enc = [f'ob {pt[1]} {x}' for x in vs]
+                elif pt[0] == 'U':
+                    u = USER[pt[1]]
+                    if u['enum'] is not None:
+                        enc = [f"en {u['id']} {u['enum'].index(x)}" for x in vs]
+                    else:
+                        tag = f"de {len(u['chain'])} " + ' '.join(map(str, u['chain'])) + f" {u['base']} "
+                        enc = [tag + (f'ls {x}' if u['base'] == 'str' else num(u['base'], x)) for x in vs]
                 elif pt[1] == 'str':
                     enc = [f'ls {x}' for x in vs]
                 elif pt[1] == 'bool':
@@ -770,6 +884,14 @@ def inhabits(v, t, model, db) -> bool:
     int16/32/64/bigint are all `int`, float32/64 are `float`; the toy model applies no implicit
     casts, so an `int` also inhabits float* / decimal."""
     k = t[0]
+    if k == 'U':
+        u = USER[t[1]]
+        if u['enum'] is not None:
+            return isinstance(v, str) and v in u['enum']
+        # a member of a user scalar: a member of its base that satisfies the scalar's constraints
+        # (the toy model does not keep the scalar's identity; its constraints are what tells a
+        # plain int64 / sibling / str value that is NOT a member from one that is)
+        return inhabits(v, ('S', u['base']), model, db) and CONSTRAINT[t[1]](v)
     if k == 'S':
         s = t[1]
         if s == 'bool':
@@ -837,6 +959,16 @@ def run(ctx: core.Ctx):
     from edb.tools import toy_eval_model as model
 
     sch = env.load_schema(SDL)
+    try:
+        us = gen_types.user_scalars(sch, gen['universe'])
+    except gen_types.GenError as e:
+        ctx.fail('gen:shape', 'user scalar extraction shape check failed', {'error': str(e)}, no_input=True)
+        ctx.cov.update({'evaluations': 0, 'distinct_nontrivial': 0, 'rule': 'n/a', 'samples': []})
+        return
+    USER.clear()
+    USER.update({n[9:]: {**u, 'base': (gen['ident'][u['base']] if u['base'] else None)} for n, u in us.items()})
+    if set(USER) != {'myint', 'yourint', 'posint', 'tinystr', 'Color'}:
+        raise core.Infra(f'unexpected user scalars {sorted(USER)}')
     idents = [gen['ident'][u] for u in gen['universe']]
     sobj = {gen['ident'][u]: std.get(u) for u in gen['universe']}
 
@@ -851,35 +983,58 @@ def run(ctx: core.Ctx):
         meta.append((kind, info))
 
     # ---------------------------------------------------------------- L1: scalars, all pairs
-    for a in idents:
-        for b in idents:
-            A, B = sobj[a], sobj[b]
-            d = s_casts.get_implicit_cast_distance(std, A, B)
-            c = A.implicitly_castable_to(B, std)
-            d2 = A.get_implicit_cast_distance(B, std)
-            if d != d2:
-                ctx.fail(f'l1:dist:{a}:{b}', 'ScalarType.get_implicit_cast_distance differs from casts.*',
-                         {'a': a, 'b': b, 'casts': d, 'type': d2}, no_input=True)
-            add(f'dist S {a} S {b}', f"d={'none' if d < 0 else d} c={1 if c else 0}", 'l1-dist', (a, b))
-            _, ct = A.find_common_implicitly_castable_type(B, std)
-            cn = None if ct is None else gen['ident'].get(str(ct.get_name(std)))
-            add(f'common S {a} S {b}', 'none' if ct is None else f'S {cn}', 'l1-common', (a, b))
-            add(f'cset {a} {b}', '' if ct is None else cn, 'l1-cset', (a, b))
-            # oracle on the real function: an upper bound, and the least one
+    # std universe + the user scalars of the harness schema (derived, sibling, second level, enum)
+    scal = [(('S', i_), sobj[i_], i_) for i_ in idents] + \
+           [(('U', n), sch.get('default::' + n), n) for n in USER]
+
+    def converts(A, tc, C):
+        """value inclusion, decided on the REAL schema objects: every value of A is a value of C without
+        a run-time check — same type, A derived from the user scalar C, or C a std scalar the topmost
+        concrete base of A is implicitly castable to"""
+        if A == C:
+            return True
+        if tc[0] == 'U':
+            return A.issubclass(sch, C)
+        top = A.get_topmost_concrete_base(sch)
+        return s_casts.get_implicit_cast_distance(sch, top, C) >= 0
+
+    for ta, A, a in scal:
+        for tb, B, b in scal:
+            std_pair = ta[0] == 'S' and tb[0] == 'S'
+            d2 = A.get_implicit_cast_distance(B, sch)
+            c = A.implicitly_castable_to(B, sch)
+            if std_pair:
+                d = s_casts.get_implicit_cast_distance(sch, A, B)
+                if d != d2:
+                    ctx.fail(f'l1:dist:{a}:{b}', 'ScalarType.get_implicit_cast_distance differs from casts.*',
+                             {'a': a, 'b': b, 'casts': d, 'type': d2}, no_input=True)
+            add(f'dist {ty_enc(ta)} {ty_enc(tb)}', f"d={'none' if d2 < 0 else d2} c={1 if c else 0}",
+                'l1-dist', (a, b))
+            s2, ct = A.find_common_implicitly_castable_type(B, sch)
+            tc = None if ct is None else real_ty(ct, s2, gen)
+            cn = None if tc is None else tc[1]
+            add(f'common {ty_enc(ta)} {ty_enc(tb)}', 'none' if ct is None else ty_enc(tc), 'l1-common', (a, b))
+            if std_pair:
+                add(f'cset {a} {b}', '' if ct is None else cn, 'l1-cset', (a, b))
+            # oracle on the real function: an upper bound, the least one, and one both operands CONVERT to
             if ct is not None:
-                if not (A.implicitly_castable_to(ct, std) and B.implicitly_castable_to(ct, std)):
+                if not (A.implicitly_castable_to(ct, sch) and B.implicitly_castable_to(ct, sch)):
                     oracle_fail.append((f'oracle:common-ub:{a}:{b}', 'common type is not an upper bound',
                                         {'a': a, 'b': b, 'common': cn}))
-                for u in idents:
-                    U = sobj[u]
-                    if (A.implicitly_castable_to(U, std) and B.implicitly_castable_to(U, std)
-                            and not ct.implicitly_castable_to(U, std)):
+                if not (converts(A, tc, ct) and converts(B, tc, ct)):
+                    oracle_fail.append((f'oracle:common-conv:{a}:{b}',
+                                        'an operand is not a subtype of / implicitly convertible to the common type '
+                                        '(a user-derived scalar was returned for a value that is not an instance of it)',
+                                        {'a': a, 'b': b, 'common': cn,
+                                         'call': f'{a}.find_common_implicitly_castable_type({b})'}))
+                for _tu, U, u in scal:
+                    if (A.implicitly_castable_to(U, sch) and B.implicitly_castable_to(U, sch)
+                            and not ct.implicitly_castable_to(U, sch)):
                         oracle_fail.append((f'oracle:common-least:{a}:{b}', 'common type is not the least upper bound',
                                             {'a': a, 'b': b, 'common': cn, 'smaller_or_incomparable_ub': u}))
             else:
-                for u in idents:
-                    U = sobj[u]
-                    if A.implicitly_castable_to(U, std) and B.implicitly_castable_to(U, std):
+                for _tu, U, u in scal:
+                    if A.implicitly_castable_to(U, sch) and B.implicitly_castable_to(U, sch):
                         oracle_fail.append((f'oracle:common-missing:{a}:{b}', 'an upper bound exists but no common type found',
                                             {'a': a, 'b': b, 'ub': u}))
     n_l1 = len(lines) - 2
@@ -891,6 +1046,8 @@ def run(ctx: core.Ctx):
     def rand_ty(d):
         c = rng.random()
         if d <= 0 or c < 0.5:
+            if rng.random() < 0.2:
+                return ('U', rng.choice(sorted(USER)))
             return ('S', rng.choice(idents[:9] if rng.random() < 0.85 else idents))
         if c < 0.8:
             return ('T', [rand_ty(d - 1) for _ in range(rng.randint(0, 3))])
@@ -899,7 +1056,13 @@ def run(ctx: core.Ctx):
 
     def perturb(t):
         """a type that is 'near' t: same shape, scalars moved along / across the cast graph"""
+        if t[0] == 'U':
+            r_ = rng.random()
+            return t if r_ < 0.4 else (('U', rng.choice(sorted(USER))) if r_ < 0.7 else
+                                       ('S', USER[t[1]]['base'] or 'str'))
         if t[0] == 'S':
+            if t[1] in ('int64', 'str') and rng.random() < 0.25:
+                return ('U', rng.choice(['myint', 'yourint', 'posint'] if t[1] == 'int64' else ['tinystr']))
             return ('S', rng.choice(NUMERIC)) if t[1] in NUMERIC and rng.random() < 0.7 else \
                 (t if rng.random() < 0.8 else ('S', rng.choice(idents)))
         if t[0] == 'A':
@@ -912,6 +1075,8 @@ def run(ctx: core.Ctx):
     def mk_real(schema, t):
         if t[0] == 'S':
             return schema, sobj[t[1]]
+        if t[0] == 'U':
+            return schema, schema.get('default::' + t[1])
         if t[0] == 'A':
             schema, e = mk_real(schema, t[1])
             return s_types.Array.create(schema, element_type=e, dimensions=[-1])
@@ -926,7 +1091,7 @@ def run(ctx: core.Ctx):
         ta = rand_ty(2)
         tb = perturb(ta) if rng.random() < 0.85 else rand_ty(2)
         try:
-            s2, A = mk_real(std, ta)
+            s2, A = mk_real(sch, ta)
             s2, B = mk_real(s2, tb)
             d = A.get_implicit_cast_distance(B, s2)
             c = A.implicitly_castable_to(B, s2)
@@ -1027,11 +1192,15 @@ def run(ctx: core.Ctx):
     else:
         seen = set()
         dq = directed_queries()
-        for q in (dq if not ctx.quick() else rng.sample(dq, 150)):
+        uq = user_scalar_queries()
+        for q in (dq if not ctx.quick() else rng.sample(dq, 120)) + \
+                (uq if not ctx.quick() else rng.sample(uq, 360)):
+            if q_enc(q) in seen:
+                continue
             seen.add(q_enc(q))
             queries.append(q)
         n_directed = len(queries)
-        target = n_directed + ctx.budget(800, 10000)
+        target = n_directed + ctx.budget(700, 10000)
         tries = 0
         while len(queries) < target and tries < target * 20:
             tries += 1
